@@ -2,5 +2,7 @@
 # MANIFEST.setup_cmd: build the framework offline from files on disk only.
 set -e
 cd "$(dirname "$0")"
+export CARGO_NET_OFFLINE=true
 python3 tools/translate.py
-(cd lean && lake build 2>&1 | tail -3)
+(cd lean && lake build IpcModel driver 2>&1 | tail -3)
+(cd harness && cargo build --offline --target-dir target-default 2>&1 | tail -2)
